@@ -16,6 +16,8 @@ RULE = ("histories of 5-40 operations from {randomize (same or NEW antenna "
         "configuration), init_from_channel_matrix, set_pathloss(matrix), "
         "set_pathloss(None), noise_var=, set_post_filter, read one view, read "
         "all views, corrupt_data} on plain and external-interference objects "
+        "(received blocks are held by reference and re-compared after the next "
+        "transmission of a block of the same size) "
         "with K = 1..4 users and unequal antennas; a reference model holds the "
         "raw matrix (known from init, or from an identically seeded twin that "
         "never gets a path loss), the current path loss, noise and filters; "
@@ -122,6 +124,9 @@ def check_view(ctx, obj, m, view, rng, hist):
 
 def do_corrupt(ctx, obj, m, rng, hist):
     nsym = int(rng.integers(1, 6))
+    prev = getattr(m, "held", None)
+    if prev is not None and rng.random() < 0.6:
+        nsym = prev[3]          # blocks of one size, as a simulation loop sends them
     data = np.empty(m.K, dtype=object)
     for k in range(m.K):
         data[k] = rand_c(rng, int(m.Nt[k]), nsym)
@@ -139,6 +144,16 @@ def do_corrupt(ctx, obj, m, rng, hist):
     okc, out = ctx.call("corrupt-data", obj.corrupt_data, *args, detail=d())
     if not okc:
         return
+    if prev is not None:
+        # what an earlier transmission returned belongs to the caller
+        same = all(np.array_equal(np.asarray(a), b) for a, b in zip(prev[0], prev[1]))
+        ctx.ev("corrupt-data", same, cls="earlier-output-changed-by-later-call",
+               detail=d(earlier=prev[2]))
+    try:
+        m.held = (out, [np.array(np.asarray(o), copy=True) for o in out],
+                  "step %d" % len(hist), nsym)
+    except Exception:            # noqa: BLE001 - malformed output is judged below
+        m.held = None
     x = np.vstack(stacked)
     y = m.big() @ x
     ln = obj.last_noise
